@@ -167,6 +167,19 @@ ASSUMPTIONS = [
     "siblings: oracle only); values are immutable in the model, i.e. every branch sees the buffer as read — which is "
     "what copy_buf=True promises; a sibling that changes contexts in place (Variable) makes a missing deep copy "
     "visible in the chain's results",
+    "copies: the statement compares three drivers of a chain whose elements are used from their construction on (a "
+    "Sequence run over the flow, a Split branch, a FillComputeSeq / FillSeq filled value by value with THE flow); a "
+    "FillComputeSeq that is filled with k >= 1 values, copied with copy.deepcopy and continued on the copy is a history "
+    "the statement does not name (seed C05-K: a Slice.__deepcopy__ that rebuilds the element from its arguments): lena "
+    "itself never copies a partly filled chain - SplitIntoBins (init_bins(deepcopy=True)), MapBins (a fresh copy of its never-run sequence per "
+    "cell) and Vectorize copy sequences that have received nothing, Split.run with copy_buf copies the VALUES of the buffer, not the elements - "
+    "and nothing documents what the copy of a used Slice is (C17 recorded the same judgement: starting afresh would be "
+    "as legitimate; itertools objects cannot be copied at all from Python 3.14 on). Outside the statement, no oracle "
+    "clause; CORRESPONDENCE ONLY: /repo's deepcopy carries the state of every element (Slice position, accumulator), "
+    "so 'fill k; deepcopy; fill the rest into the copy; compute' is compared with the model's fillRun of the whole flow "
+    "(every k for chains with a Slice, k = n/2 otherwise) and a change is reported as a correspondence break without a "
+    "failing input. The copy of a chain that has received nothing (k = 0, what lena itself makes) is among the points, "
+    "compared in the same way",
     "FillRequest and FillRequestSeq as such belong to C16; FillSeq "
     "filled value by value has no model of its own: fillRun stands for FillComputeSeq and for FillSeq+compute+Sequence(post), "
     "both real variants are compared with it",
@@ -923,6 +936,50 @@ def drive_fill(args, flow, form="iter"):
     return observe(go)
 
 
+def ckpt_points(args, n):
+    """after how many filled values a check-point copy is taken: every position for a chain with a Slice anywhere
+    (the element with a position of its own), the middle of the flow for the others"""
+    ks = []
+    for s in args:
+        _kinds(s, ks, fine=False)
+    if any(k.startswith("slice") for k in ks):
+        return list(range(0, n + 1))
+    return [n // 2] if n >= 2 else []
+
+
+def drive_fill_ckpt(args, flow, k):
+    """a history, not a driver of the statement (CORRESPONDENCE ONLY, see ASSUMPTIONS 'copies'): the FillComputeSeq is
+    filled with the first k values, copied with copy.deepcopy, and only the COPY is filled with the rest of the flow
+    and computed.  None: nothing to compare (construction, the first k values or the copy itself raised)"""
+    import copy
+    import lena.core
+    seq, err = _construct(lambda: lena.core.FillComputeSeq(*[build(s) for s in args]))
+    if err:
+        return None
+    vals = dec(flow)
+    stopped = False
+    try:
+        for v in vals[:k]:
+            try:
+                seq.fill(v)
+            except lena.core.LenaStopFill:
+                stopped = True
+                break
+        cp = copy.deepcopy(seq)
+    except Exception:
+        return None
+
+    def go():
+        if not stopped:
+            for v in vals[k:]:
+                try:
+                    cp.fill(v)
+                except lena.core.LenaStopFill:
+                    break
+        return cp.compute()
+    return observe(go)
+
+
 def drive_fillseq(args, flow):
     """the same through an explicit FillSeq(*pre, acc); acc.compute(); Sequence(*post)"""
     import lena.core
@@ -1347,6 +1404,8 @@ def run_impl(case):
                "facts": chain_facts(args)}
         sp = split_point(args)
         res["safe"] = ref_safe(sp[0], flow) if sp else None
+        if res["facts"].get("has_fc") and "e" not in res["fill"] and not oracle_only(args):
+            res["ckpt"] = [[k, drive_fill_ckpt(args, flow, k)] for k in ckpt_points(args, len(flow))]
         return res
     if op == "caps":
         el, err = _construct(lambda: build(case["spec"]))
@@ -1508,6 +1567,11 @@ def compare(case, res, replies):
                 break           # no fill/compute element: Split makes a branch of type "sequence" (C03's model)
             if _canon_out(mm) != a:
                 return f"split bufsize={b}: impl {a} vs model {_canon_out(mm)}"
+        for k, o in res.get("ckpt", []):
+            # correspondence only: /repo's copy.deepcopy of a partly filled chain continues where the original was
+            if o is not None and o != _canon_out(m["fill"]):
+                return (f"fill {k} values; copy.deepcopy; fill the rest into the copy; compute: impl {o} vs model "
+                        f"(fillRun of the whole flow: the copy carries the state of every element) {_canon_out(m['fill'])}")
         if res["safe"] is not None and m["safe"] is not None and res["safe"] != m["safe"]:
             return f"PreSafe: Python reference {res['safe']} vs model preSafeB {m['safe']}"
         if m.get("seqchain") is not None and _canon_out(m["seqchain"]) != res["seq"]:
